@@ -129,4 +129,13 @@ def kvGet (kv : List (String × String)) (k : String) : Option String := (kv.fin
 
 def kvNat (kv : List (String × String)) (k : String) (d : Nat) : Nat := ((kvGet kv k).bind String.toNat?).getD d
 
+/-- The address an event text belongs to (`-` for WaitRecommendation). -/
+def eventAddr (e : String) : String :=
+  match e.splitOn ":" with
+  | ["DesyncDetected", _, _, _, a] => a
+  | "WaitRecommendation" :: _ => "-"
+  | _ :: a :: _ => a
+  | _ => "?"
+
+
 end Ggrs.Driver
